@@ -753,7 +753,7 @@ def run_coll(ctx, rng, nseq, length, stats):
     seqs.insert(0, ["cl new", "cl first", "cl rest", "cl last", "cl ref 0", "cl take 0", "cl tail 0", "cl tail 1", "cl len",
                     "cl new 1 2 3", "cl ref 3", "cl ref 2", "cl ref -1", "cl take 5", "cl tail 3", "cl new 1 2 3", "cl tail 4",
                     "cl take -1", "cl tail -1"])
-    # `take` cutting exactly at a node boundary of the unrolled list (K11h), then every reader
+    # `take` cutting exactly at a node boundary of the unrolled list (K11h, fixed in 85136c18), then every reader
     seqs.insert(0, ["cl new 1 2 3 4 5 6 7 8 9", "cl take 5", "cl last", "cl first", "cl len", "cl ref 4", "cl reverse", "cl last",
                     "cl new 4 7 0 3 7", "cl take 1", "cl last", "cl append 9", "cl last", "cl new 4 7 0 3 7", "cl take 1", "cl rest", "cl len"])
     seqs.insert(0, ["cv new", "cv ref 0", "cv set 0 1", "cv len", "cv push 5", "cv set 0 7", "cv set 1 7", "cv ref 1", "cv ref -1"])
@@ -773,23 +773,12 @@ def run_coll(ctx, rng, nseq, length, stats):
                           "# collection operations: %s; first unanswered input:\n%s\n" % (res["error"], res["at"]))
             continue
         bad = None
-        took = False          # the list register went through `take` since it was built
         for (op, src, real, raw, model) in res["rows"]:
             stats["coll_ops"] += 1
             stats["coll_kinds"][op.split()[0] + " " + op.split()[1]] = stats["coll_kinds"].get(op.split()[0] + " " + op.split()[1], 0) + 1
             if real == "err":
                 stats["coll_errors"] += 1
-            if op.startswith("cl new"):
-                took = False
-            elif op.startswith("cl take") and model != "err":
-                took = True
             if raw.startswith("panic") or real != model:
-                if k11h_open(ctx) and op == "cl last" and real == "err" and model.startswith("ok ") and took:
-                    # open finding K11h: same class, and the failure is the known one (error on a non-empty list)
-                    ctx.known_finding("id=K11h class=last_after_take_at_node_boundary replay=findings/C11-K11h.txt "
-                                      "`last` raises 'empty list' on a non-empty list cut by `take` at a node boundary")
-                    stats["k11h"] = stats.get("k11h", 0) + 1
-                    continue
                 bad = bad or (op, src, real, raw, model)
         if bad and len(ctx.violations) < 8:
             op, src, real, raw, model = bad
@@ -799,14 +788,6 @@ def run_coll(ctx, rng, nseq, length, stats):
                 if row[0] == op and row[3] == raw and row[4] == model:
                     break
             ctx.violation("C11-coll-%d.txt" % bi, body + "# the primitive's answer `%s` differs from the finite map/set/sequence model `%s`\n" % (raw, model))
-
-
-def k11h_open(ctx):
-    """finding K11h is open if KNOWN_FINDINGS.txt lists it, or (until the coordinator has added the
-    line) if its witness file exists."""
-    if any(k.get("id") == "K11h" for k in ctx.load_known()):
-        return True
-    return os.path.exists(os.path.join(C.VERIF, "findings", "C11-K11h.txt"))
 
 
 # ------------------------------------------------------------------------------------------------
